@@ -10,7 +10,8 @@ LEVEL_TEXT["C17"] = (
     "angle = Complex.arg (the atan2 case split incl. both axes and 0), exp(cmplx) = complex exp, expj = e^{ix}, power(cmplx, real) = principal power via the polar form, "
     "power(x, int) with its four shortcuts = integer power (real and complex, x != 0), sum, dot (bilinear), mean, rms = sqrt(sum x^2 / n), "
     "stddev = sqrt(sum |x - mean|^2 / (n-1)) (n >= 2), norm p = 1, 2, >= 3 (real and complex), max/min/argmax/argmin = FIRST extreme, peak2peak = max - min "
-    "(complex: ordered by magnitude), dB and degree conversions = their definitions and all six round trips. "
+    "(complex: ordered by magnitude), dB and degree conversions = their definitions and all six round trips; the dB conversions (mag2db, db2mag, pow2db, db2pow) and abs2(real) "
+    "are the definitions REGENERATED from the C++ AST (Gen/Dynamics.lean), not hand copies: theorems and driver use them directly. "
     "Tie: bit-exact correspondence (angle/complex power/complex tanh within 1e-13 relative: model uses the atan case split resp. the closed form of ctanh) of every "
     "overload, scalar and array, on the special points and random grids; exhaustive shape boxes. "
     "Measured, not proved: 'within a few rounding units' against long double for log-uniform magnitudes 1e+-100, special points (0, -0, +-1, +-i, axes), "
@@ -19,13 +20,14 @@ LEVEL_TEXT["C17"] = (
 
 PROPS["C17"] = {
     "technique": "Lean 4 proofs over hand-written executable models generic in the element type (index functions, Array.ofFn index maps) and in the scalar "
-                 "(value functions, instantiated at R with Mathlib: Complex.arg, Complex.cpow_ofReal_re/im, Real.rpow_logb, List sums), tied to the code by "
+                 "(value functions, instantiated at R with Mathlib: Complex.arg, Complex.cpow_ofReal_re/im, Real.rpow_logb, List sums; mag2db/db2mag/pow2db/db2pow/abs2(real) are not hand-written but "
+                 "machine-generated from lib/math.cpp, include/dsplib/math.h by tools/cxx2lean.py on every run), tied to the code by "
                  "bit-exact differential correspondence of every overload; long-double / brute-force oracle on the implementation over the stated grids",
     "level_note": "floating-point rounding is not modelled (theorems are exact over R/C or structural); std::atan2 is modelled by the textbook case split with atan and pi "
                   "(sign of zero observed as 1/x < 0), std::tanh(std::complex) by the closed form (tanh a + i tan b)/(1 + i tanh a tan b); std::round is compared by the oracle only "
                   "(Mathlib's `round` rounds half up, C rounds half away from zero); the integer arange count is computed exactly in Int (the double quotient of two ints cannot cross an integer); "
                   "C int overflow and negative repeat/size arguments are outside the model",
-    "gen": ["Cmplx"],
+    "gen": ["Cmplx", "Dynamics"],
     "lean_props": "DspVerif.Props.C17",
     "harness": [{"src": "c17.cpp", "cfg": "rel",
                  "tol": {"angle": (4e-15, 0.0), "v.angle": (4e-15, 0.0), "cpow": (1e-13, 0.0), "cpowi": (1e-13, 0.0), "v.cpowi": (1e-13, 0.0), "ctanh": (1e-13, 0.0)}}],
